@@ -187,6 +187,17 @@ func runBlockDecoder(p *core.Program, fn *ssa.Function, typ string, blockLen, cr
 				st.Events = append(st.Events, "ReplayArrayLength("+v+")")
 			case n == "pkg/bpv7.calculateCRCBuff":
 				st.Events = append(st.Events, "calculateCRCBuff")
+			case n == "pkg/bpv7.checkCRCField":
+				rd := st.Resolve(core.Arg(x, 0))
+				via := "raw"
+				if tee, ok := st.Data["tee"].(*ssa.Call); ok && rd == ssa.Value(tee) {
+					via = "tee"
+					// the buffer handed over is the one the tee writes into
+					if core.Strip(st.Resolve(core.Arg(x, 1))) != core.Strip(st.Resolve(core.Arg(tee, 1))) {
+						via = "tee-other-buffer"
+					}
+				}
+				st.Events = append(st.Events, "checkCRCField@"+via)
 			}
 		}
 	}
@@ -215,6 +226,15 @@ func runBlockDecoder(p *core.Program, fn *ssa.Function, typ string, blockLen, cr
 				}
 				if okCalc && okWire {
 					cp.compared = true
+				}
+			}
+		}
+		for _, c := range pr.State.Taken {
+			if x, isNil, ok := core.NilCmp(c); ok && isNil {
+				if ex, ok := x.(*ssa.Extract); ok && ex.Index == 1 {
+					if cc, ok := ex.Tuple.(*ssa.Call); ok && core.NameIs(core.CalleeName(cc), bp7+".checkCRCField") {
+						cp.compared = true // the helper's own obligations (crc-field-check/...) cover the comparison
+					}
 				}
 			}
 		}
@@ -293,7 +313,7 @@ func C03(p *core.Program, r *core.Report) {
 							why = w + " in " + strings.Join(cp.events, " ")
 						}
 					}
-					r.Check(okOrder && nChecked > 0, fmt.Sprintf("crc-covers-block/%s/len=%d,crcType=%d", fname(fn), n, t), "the CRC is computed over exactly the received block: tee installed before the first content read (an earlier header read is replayed with the same value), all later reads through the tee, computation before the CRC field is read", p.Pos(fn.Pos()), fmt.Sprintf("%d accepting path(s) in order", nChecked), why)
+					r.Check(okOrder && nChecked > 0, fmt.Sprintf("crc-covers-block/%s/len=%d,crcType=%d", fname(fn), n, t), "the CRC is computed over exactly the received block: the tee is installed before the array header is read, every read goes through it, the last read is the CRC field handed to checkCRCField together with the tee's buffer", p.Pos(fn.Pos()), fmt.Sprintf("%d accepting path(s) in order", nChecked), why)
 				}
 			}
 		}
@@ -303,55 +323,219 @@ func C03(p *core.Program, r *core.Report) {
 
 	checkCRCEncoders(p, r)
 	checkCRCConfig(p, r)
+	checkCRCFieldHelper(p, r)
 	checkCRCCreation(p, r)
 }
 
-// crcEventOrder validates the event string of an accepting decoder path.
+// checkCRCFieldHelper: the decoders' common last step, checkCRCField(r, buff,
+// type). buff holds the block as received up to the CRC field. Necessary for
+// "computed over exactly the received bytes with the CRC field zeroed":
+// (a) the field's header is read through r (so it is in buff as received) and
+// must be a byte string of the type's width; (b) the data handed to the
+// checksum is buff's content at that moment followed by emptyCRC(type), and it
+// is taken before the transmitted value is read (r copies into buff); (c) the
+// checksum uses the table and width of the type and is stored big-endian;
+// (d) the transmitted value is read with io.ReadFull from r; (e) success is
+// returned only through the equal edge of bytes.Equal(calculated, transmitted).
+func checkCRCFieldHelper(p *core.Program, r *core.Report) {
+	fn := p.Func(bp7, "", "checkCRCField")
+	rd, buf, typ := ssa.Value(fn.Params[0]), ssa.Value(fn.Params[1]), ssa.Value(fn.Params[2])
+	base := "crc-field-check/" + fname(fn) + "/"
+	var majors, bytesCall, readFull *ssa.Call
+	core.EachInstr(fn, func(in ssa.Instruction) {
+		c, ok := in.(*ssa.Call)
+		if !ok {
+			return
+		}
+		switch n := shortName(core.CalleeName(c)); {
+		case n == cbor+".ReadMajors" && core.Arg(c, 0) == rd:
+			majors = c
+		case n == "bytes.Buffer.Bytes" && core.CallRecv(c) == buf:
+			bytesCall = c
+		case n == "io.ReadFull" && core.Arg(c, 0) == rd:
+			readFull = c
+		}
+	})
+	if majors == nil || bytesCall == nil || readFull == nil {
+		r.Fail(base+"shape", "checkCRCField reads the field header from r, takes buff.Bytes() and reads the value with io.ReadFull(r, ...)", p.Pos(fn.Pos()), fmt.Sprintf("ReadMajors(r): %v, buff.Bytes(): %v, io.ReadFull(r): %v", majors != nil, bytesCall != nil, readFull != nil))
+		return
+	}
+	// (a) header: byte string of len(emptyCRC(type)) — both tests dominate the snapshot
+	conds := core.DominatingConds(bytesCall.Block())
+	okMajor, okLen := false, false
+	for _, cd := range conds {
+		b, ok := cd.V.(*ssa.BinOp)
+		if !ok {
+			continue
+		}
+		eq := (b.Op == token.EQL && cd.True) || (b.Op == token.NEQ && !cd.True)
+		if !eq {
+			continue
+		}
+		for _, pair := range [][2]ssa.Value{{b.X, b.Y}, {b.Y, b.X}} {
+			ex, isEx := core.Strip(pair[0]).(*ssa.Extract)
+			if !isEx || ex.Tuple != ssa.Value(majors) {
+				continue
+			}
+			if k, isC := core.ConstInt(pair[1]); isC && ex.Index == 0 && k == 0x40 {
+				okMajor = true
+			}
+			if ex.Index == 1 && core.DependsOn(pair[1], func(v ssa.Value) bool {
+				c, ok := v.(*ssa.Call)
+				return ok && core.NameIs(core.CalleeName(c), bp7+".emptyCRC")
+			}) {
+				okLen = true
+			}
+		}
+	}
+	okHdrFirst := core.MustPassBefore(bytesCall, func(i ssa.Instruction) bool { return i == ssa.Instruction(majors) })
+	r.Check(okMajor && okLen && okHdrFirst, base+"header-as-received", "the CRC field's header is read through the tee before the buffer is taken (so it is covered as received) and must be a byte string whose length is the width of the CRC type", p.Pos(majors.Pos()), "", fmt.Sprintf("byte-string major tested: %v, length == len(emptyCRC(type)): %v, read before buff.Bytes(): %v", okMajor, okLen, okHdrFirst))
+	// (b) snapshot before the value is read, data = snapshot ++ emptyCRC
+	okSnap := core.MustPassBefore(readFull, func(i ssa.Instruction) bool { return i == ssa.Instruction(bytesCall) })
+	// (c) checksums
+	type exp struct {
+		k        int64
+		checksum string
+		table    string
+		put      string
+	}
+	nSum := 0
+	for _, e := range []exp{{1, "github.com/howeyc/crc16.Checksum", "crc16table", "PutUint16"}, {2, "hash/crc32.Checksum", "crc32table", "PutUint32"}} {
+		ok, detail := false, "checksum call not found"
+		for _, c := range core.CallsTo(fn, e.checksum) {
+			nSum++
+			args := core.CallArgs(c)
+			okT := false
+			if tbl, isLoad := args[1].(*ssa.UnOp); isLoad {
+				if g, isG := tbl.X.(*ssa.Global); isG && g.Name() == e.table {
+					okT = true
+				}
+			}
+			okD := core.DependsOn(args[0], func(v ssa.Value) bool { return v == ssa.Value(bytesCall) }) &&
+				core.DependsOn(args[0], func(v ssa.Value) bool {
+					cc, ok := v.(*ssa.Call)
+					return ok && core.NameIs(core.CalleeName(cc), bp7+".emptyCRC")
+				})
+			okP := false
+			for _, ref := range *c.(*ssa.Call).Referrers() {
+				if pc, isC := ref.(*ssa.Call); isC && strings.HasSuffix(core.CalleeName(pc), "bigEndian."+e.put) {
+					okP = true
+				}
+			}
+			okK := false
+			for _, cd := range core.DominatingConds(c.Block()) {
+				if b, isB := cd.V.(*ssa.BinOp); isB && b.Op == token.EQL && cd.True && b.X == typ {
+					if k, isC := core.ConstInt(b.Y); isC && k == e.k {
+						okK = true
+					}
+				}
+			}
+			okBefore := core.MustPassBefore(readFull, func(i ssa.Instruction) bool { return i == ssa.Instruction(c) }) || !reaches(c, readFull)
+			ok = okT && okD && okP && okK
+			detail = fmt.Sprintf("table=%v data=buff.Bytes()++emptyCRC=%v big-endian put=%v under type==%d: %v (before the value is read: %v)", okT, okD, okP, e.k, okK, okBefore)
+		}
+		r.Check(ok && okSnap, fmt.Sprintf("%schecksum/type=%d", base, e.k), "the checksum is taken over the bytes received so far (snapshot of the buffer before the transmitted value is read into it) followed by a zeroed field, with the table and width of the CRC type, and stored big-endian", p.Pos(fn.Pos()), detail, detail+fmt.Sprintf("; snapshot before ReadFull: %v", okSnap))
+	}
+	// (d)+(e) success only through bytes.Equal(calculated, transmitted)
+	okCmp, nNil := true, 0
+	for _, rv := range core.ReturnValues(fn, 1) {
+		if c, isC := rv.V.(*ssa.Const); !isC || c.Value != nil {
+			continue
+		}
+		nNil++
+		g := false
+		for _, cd := range core.DominatingConds(rv.At.Block()) {
+			call, isCall := core.CondIsCall(cd, "bytes.Equal")
+			if !isCall || !cd.True {
+				continue
+			}
+			wire := false
+			for _, a := range core.CallArgs(call) {
+				if core.SameLoad(a, core.Arg(readFull, 1)) || a == core.Arg(readFull, 1) || core.Strip(a) == core.Strip(core.Arg(readFull, 1)) {
+					wire = true
+				}
+			}
+			if wire && core.MustPassBefore(call, func(i ssa.Instruction) bool { return i == ssa.Instruction(readFull) }) {
+				g = true
+			}
+		}
+		if !g {
+			okCmp = false
+		}
+	}
+	r.Check(okCmp && nNil > 0, base+"accept-only-equal", "checkCRCField returns success only through the equal edge of bytes.Equal(calculated value, value read with io.ReadFull from the stream)", p.Pos(fn.Pos()), "", "a nil error is reachable without the comparison of the transmitted value")
+	// the error result of ReadFull is not dropped
+	okRF := false
+	for _, cd := range allConds(fn) {
+		if x, isNil, ok := core.NilCmp(cd); ok && !isNil {
+			if ex, isEx := x.(*ssa.Extract); isEx && ex.Tuple == ssa.Value(readFull) && ex.Index == 1 {
+				okRF = true
+			}
+		}
+	}
+	r.Check(okRF, base+"short-read-is-error", "a CRC field cut short (io.ReadFull error) is an error", p.Pos(readFull.Pos()), "", "io.ReadFull's error is not tested")
+	r.Count("checksum calls in checkCRCField", nSum)
+	r.Min("checksum calls in checkCRCField", 2)
+}
+
+// allConds lists the branch conditions of fn (true edges).
+func allConds(fn *ssa.Function) []core.Cond {
+	var out []core.Cond
+	for _, b := range fn.Blocks {
+		if ifi, ok := b.Instrs[len(b.Instrs)-1].(*ssa.If); ok {
+			out = append(out, core.Cond{V: ifi.Cond, True: true, If: ifi})
+		}
+	}
+	return out
+}
+
+// crcEventOrder validates the event string of an accepting decoder path: the
+// tee is installed before anything is read, every read of the block —
+// including the array header — goes through it (a header that is read first
+// and replayed would be re-encoded in its shortest form, not as received),
+// and the last read is the CRC field, checked by checkCRCField on the tee and
+// its buffer (checkCRCField keeps the field's header as received and zeroes
+// only the value).
 func crcEventOrder(ev []string, typ string, n int64) string {
-	tee, calc := -1, -1
+	tee, chk := -1, -1
 	for i, e := range ev {
 		if e == "TeeReader" && tee < 0 {
 			tee = i
 		}
-		if e == "calculateCRCBuff" && calc < 0 {
-			calc = i
+		if strings.HasPrefix(e, "checkCRCField") && chk < 0 {
+			chk = i
 		}
 	}
 	if tee < 0 {
 		return "no TeeReader on the path"
 	}
-	if calc < 0 {
-		return "no calculateCRCBuff on the path"
+	for _, e := range ev {
+		if e == "calculateCRCBuff" {
+			return "the decoder recomputes the CRC over a re-encoded CRC field header (calculateCRCBuff writes the shortest form) instead of the header it received"
+		}
+		if strings.HasPrefix(e, "ReplayArrayLength(") {
+			return "the array header is replayed into the CRC buffer in its shortest form instead of being read through the tee as received"
+		}
 	}
-	replayed := false
+	if chk < 0 {
+		return "no checkCRCField on the path"
+	}
+	if ev[chk] != "checkCRCField@tee" {
+		return "checkCRCField is not given the tee reader and the buffer the tee writes into: " + ev[chk]
+	}
 	for i, e := range ev {
 		isRead := strings.HasPrefix(e, "Read") || strings.HasPrefix(e, "Unmarshal")
-		if i < tee {
-			if strings.HasPrefix(e, "ReplayArrayLength(") {
-				replayed = e == fmt.Sprintf("ReplayArrayLength(%d)", n)
-				continue
-			}
-			if isRead && !strings.HasPrefix(e, "ReadArrayLength") {
-				return "content read before the tee: " + e
-			}
+		if !isRead {
+			continue
 		}
-		if i > tee && i < calc && isRead && !strings.HasSuffix(e, "@tee") {
+		if i < tee {
+			return "read before the tee is installed: " + e
+		}
+		if i < chk && !strings.HasSuffix(e, "@tee") {
 			return "read bypasses the tee: " + e
 		}
-	}
-	// a header read before the tee must have been replayed
-	for i, e := range ev {
-		if i < tee && strings.HasPrefix(e, "ReadArrayLength") && !replayed {
-			return "array header read before the tee is not replayed into the CRC buffer with the same value"
-		}
-	}
-	// after calculateCRCBuff the next read is the CRC byte string
-	for i := calc + 1; i < len(ev); i++ {
-		if strings.HasPrefix(ev[i], "Read") {
-			if !strings.HasPrefix(ev[i], "ReadByteString") {
-				return "the CRC field is not the first thing read after the computation"
-			}
-			break
+		if i > chk {
+			return "something is read after the CRC field: " + e
 		}
 	}
 	return ""
